@@ -32,7 +32,9 @@ Domain : v1 configuration with 0-2 input rails, 0-2 output rails (all of the blo
          set by the rail flow right before it utters its refusal.  A rendered refusal / predefined message is still a predefined message: the
          reply is its rendered text, output rails do not run on it, the log lists the rails that ran with `stop` on the blocking one;
          (5) A SPARE BOT MESSAGE - a selection with NEITHER dialog NOR output (none, input, retrieval, input+retrieval) whose caller still
-         appends the bot message it holds (last message, role assistant): the selected categories run on the user message as always.
+         appends the bot message it holds (last message, role assistant): the selected categories run on the user message as always;
+         (6) WHITESPACE AROUND THE TEXTS - the user text and the supplied bot message begin / end with spaces, tabs or newlines, and so do
+         the texts the rewriting rails hand back: the reply of a rails-only call is EXACTLY the text sent / supplied / rewritten.
 Oracle : reference table written from docs/user_guides/advanced/generation-options.md and the statement:
            * no rail action of an unselected category is ever invoked; selected input rails run in order on the text
              left by their predecessors until the first reject;
@@ -98,6 +100,12 @@ RULE = (
     "spare bot message for selections without dialog and output (1/2). "
     "Non-trivial = subset != all four and (a reject or rewrite among the verdicts of a selected "
     "category, or a selected input/output category without any rail, or one flow that ran in two places); distinct by the whole case."
+    " Enumerated first: (g) family PADS = texts with leading / trailing whitespace: 6 pads (two spaces in front; newline at the end; tab on both sides; newline in front + "
+    "two spaces at the end; one space at the end; space in front + space-newline at the end) x 16 subsets x 4 rows on the 2+2+1 configuration: all accept with padded user text "
+    "and bot message / first input + last output rail rewrite, their PRODUCT padded, texts padded with the next pad / the other two rails rewrite, product padded / a reject "
+    "after an accepting rail with padded texts (rows with padded rewrite products use one result variable per rail, whose rail actions are this module's); spare bot message "
+    "on every other eligible selection = 384 rows. Sampled part: texts of the judged call padded 1/3, rewrite products padded 1/3 of the configurations with the module's own "
+    "rail actions (lead and trail drawn from '', ' ', '  ', tab, newline, space-newline)."
     " Enumerated also: texts that begin with a dollar sign (user text and supplied bot message in four spellings x every subset x all-accept / rewriting verdicts; 128 rows)."
 )
 ASSUMPTIONS = [
@@ -129,6 +137,9 @@ ASSUMPTIONS = [
     "pass context - or assigned by the rail flow right before `bot refuse`), so the rendered text is determined; a rendered predefined message is a predefined "
     "message: 'the refusal' of the statement is its rendered text and output rails do not run on it (generation.py: 'We skip output rails for predefined messages'); "
     "with enable_rails_exceptions the refusal is an exception event (not templated); predefined DIALOG messages are templated only when the caller plants the variable",
+    "user texts, supplied bot messages and the texts returned by rewriting rails are data: leading / trailing whitespace (spaces, tabs, newlines) belongs to them, and "
+    "'the unchanged user text' / 'that message' / 'its rewritten form' of the statement is the text character by character (the comparison of these replies has always been exact; "
+    "probed on the unchanged tree: all padded rows come back unchanged). Refusals are still compared after stripping; with dialog selected only markers are followed",
     "a call marked new_conversation sends only its own messages (another conversation served by the same LLMRails instance); the harness "
     "does not clear the instance's events cache between the calls of a case",
 ]
@@ -333,7 +344,7 @@ def _make_shared_action(cfg, lab):
         if kind == "check":
             return True
         if verdict == "rewrite":
-            return session.rewritten(cat, idx, turn, text)
+            return _pad(session.rewritten(cat, idx, turn, text), session.turns[turn].get("rw_pad"))
         return text
 
     shared_action.__name__ = name
@@ -357,7 +368,7 @@ def _make_rail_action(cfg, cat, idx):
         if kind == "check":
             return True
         if verdict == "rewrite":
-            return session.rewritten(cat, idx, turn, text)
+            return _pad(session.rewritten(cat, idx, turn, text), session.turns[turn].get("rw_pad"))
         return text
 
     rail_action.__name__ = name
@@ -406,20 +417,32 @@ BOTS = ["all good", "it's {sunny} $today", "fine: yes", "ok"]
 D_ROUTES = ["llm", "predef", "next_llm", "pl", "act_llm", "next_predef"]
 
 
-def _turn(T, subset, spelling, vin, vout, user_noise, bot_noise, route, empty_bot=False, nobot=False, spare_bot=False):
+def _pad(text, pad):
+    """The text as the caller sends it: with the leading / trailing whitespace of `pad` = [lead, trail] (None: as it is)."""
+    return text if not pad else f"{pad[0]}{text}{pad[1]}"
+
+
+def _turn(T, subset, spelling, vin, vout, user_noise, bot_noise, route, empty_bot=False, nobot=False, spare_bot=False, pad=None, rw_pad=None):
     """One call with a `rails` selection (subset None = a call without the option: all rails); T = its index in the case.
     nobot (earlier calls only): a call whose selection takes a supplied bot message (output without dialog) is made WITHOUT one -
     the last message is the user's, as when the caller has no candidate answer yet.  What such a call does is not specified.
     spare_bot: the selection has NEITHER dialog NOR output, and the caller still appends the bot message it holds (the message list it
-    uses for the input+output check): nothing selected consumes it, the selected categories run on the user message as always."""
+    uses for the input+output check): nothing selected consumes it, the selected categories run on the user message as always.
+    pad = [lead, trail]: the user text and the bot message of this call begin / end with that whitespace (they are data: an allowed
+    text comes back exactly as sent).  rw_pad = [lead, trail]: the texts that the REWRITING rails of this call hand back begin / end
+    with that whitespace (needs rail actions of this module: own-rails configurations and shared flows, see make_case)."""
     turn = {
-        "user": f"{user_noise} {fakes.mk_user(T)}",
+        "user": _pad(f"{user_noise} {fakes.mk_user(T)}", pad),
         "route": route,
         "in": vin,
         "out": vout,
         "body": "generated words",
         "options": {"log": {"activated_rails": True}},
     }
+    if pad and (pad[0] or pad[1]):
+        turn["pad"] = list(pad)
+    if rw_pad and (rw_pad[0] or rw_pad[1]):
+        turn["rw_pad"] = list(rw_pad)
     if subset is None:
         return turn
     subset = [c for c in CATS if c in subset]
@@ -427,20 +450,20 @@ def _turn(T, subset, spelling, vin, vout, user_noise, bot_noise, route, empty_bo
     if "dialog" not in subset and "output" in subset and nobot:
         turn["unspecified"] = "output selected without dialog, no bot message supplied"
     elif "dialog" not in subset and "output" in subset:
-        turn["bot"] = f"{fakes.mk_llm(T, SUPPLIED_K)} {bot_noise}"
+        turn["bot"] = _pad(f"{fakes.mk_llm(T, SUPPLIED_K)} {bot_noise}", pad)
         if empty_bot:
             # the supplied bot message is the empty string: still a bot message, the selected output rails run on it
             turn["bot"] = ""
             turn["out_any_text"] = True  # the fake rails judge this marker-less text too
             turn["out"] = ["accept" if v == "rewrite" else v for v in vout]
     elif "dialog" not in subset and "output" not in subset and spare_bot:
-        turn["bot"] = f"{fakes.mk_llm(T, SUPPLIED_K)} {bot_noise}"
+        turn["bot"] = _pad(f"{fakes.mk_llm(T, SUPPLIED_K)} {bot_noise}", pad)
         turn["spare_bot"] = True
     return turn
 
 
 def make_case(subset, spelling, n_out, vin, vout, user_noise, bot_noise, route, exc=False, warm=False, empty_bot=False, n_in=2, n_ret=1, flows=None,
-              var=None, block=None, pre=None, new=False, api="sync", options_as="dict", tpl=None, spare_bot=False):
+              var=None, block=None, pre=None, new=False, api="sync", options_as="dict", tpl=None, spare_bot=False, pad=None, rw_pad=None):
     """pre = calls made on the same LLMRails instance before the judged one: [{"subset": [...] | None (all rails, no option)
     | "same" (selection and spelling of the judged call: the two calls pass EQUAL options), "spelling", "in", "out", "route",
     "user", "bot", "new": bool, "nobot": bool (see _turn)}, ...]; "new" on a call (parameter `new` for the judged one)
@@ -449,11 +472,16 @@ def make_case(subset, spelling, n_out, vin, vout, user_noise, bot_noise, route, 
     GenerationOptions object per call), "dict-reused" / "object-reused" (the caller keeps ONE dict / GenerationOptions object per
     distinct options value and passes that same object to every call of the case with these options).
     api = "sync" / "async": every call is its own `generate` / `run_until_complete(generate_async)`;
-    "task": all calls of the case are awaited one after the other in ONE coroutine (one asyncio task, one contextvars context)."""
+    "task": all calls of the case are awaited one after the other in ONE coroutine (one asyncio task, one contextvars context).
+    pad / rw_pad = [lead, trail] (judged call, see _turn): whitespace around the user text and the bot message / around the texts the
+    rewriting rails hand back.  The padded rewrite is produced by this module's rail actions: a configuration whose slots all have the
+    shared harness's rails gets one result variable per rail (var = "own") so that the module's actions are the ones in place."""
     subset = [c for c in CATS if c in subset]
+    if rw_pad and (rw_pad[0] or rw_pad[1]) and var is None and block is None:
+        var = "own"
     pre = list(pre or [])
     T = len(pre) + (1 if warm else 0)
-    turn = _turn(T, subset, spelling, vin, vout, user_noise, bot_noise, route, empty_bot, spare_bot=spare_bot)
+    turn = _turn(T, subset, spelling, vin, vout, user_noise, bot_noise, route, empty_bot, spare_bot=spare_bot, pad=pad, rw_pad=rw_pad)
     turns = []
     if warm:
         # a first call of the same conversation with ALL rails (no `rails` option): the judged call then resends its messages,
@@ -598,7 +626,33 @@ def _rows(subset, spelling, n_in, n_out, n_ret, flows, n, var=None, block=None, 
                                 options_as=OPTION_FORMS[(n // 6) % 4 % 3], **kw)  # (moduli 4, 3, 5, 7, 11: the dimensions are crossed)
 
 
+# [lead, trail]: whitespace around a user text / a supplied bot message / a rewrite product (spaces, tabs, newlines; leading, trailing, both)
+PADS = [["  ", ""], ["", "\n"], ["\t", "\t"], ["\n", "  "], ["", " "], [" ", " \n"]]
+
+
+def _whitespace_rows():
+    """Texts that begin / end with whitespace: every subset x every pad x (all accept, texts padded / a rewrite in each selected chain,
+    product padded, texts padded otherwise / the other rewriting rails, product padded, texts as they are / a reject after an accepting
+    rail, texts padded).  Rows whose rails rewrite run on the own-variable configuration (the module's rail actions pad the product)."""
+    n = 0
+    for k, pad in enumerate(PADS):
+        other = PADS[(k + 1) % len(PADS)]
+        for r in range(5):
+            for subset in itertools.combinations(CATS, r):
+                n += 1
+                spelling = ("list", "dict")[n % 2]
+                kw = dict(spare_bot=("dialog" not in subset and "output" not in subset and n % 2 == 1))
+                user, bot, route = USERS[n % len(USERS)], BOTS[n % len(BOTS)], D_ROUTES[n % len(D_ROUTES)]
+                yield make_case(subset, spelling, 2, ["accept", "accept"], ["accept", "accept"], user, bot, route, pad=pad, warm=(n % 8 == 0), **kw)
+                yield make_case(subset, spelling, 2, ["rewrite", "accept"], ["accept", "rewrite"], user, bot, route, pad=other, rw_pad=pad, **kw)
+                yield make_case(subset, spelling, 2, ["accept", "rewrite"], ["rewrite", "accept"], user, bot, route, rw_pad=pad, **kw)
+                yield make_case(subset, spelling, 2, ["accept", "reject"], ["accept", "reject"], user, bot, route, pad=pad, **kw)
+
+
 def enumerate_cases(tier):
+    # (first: a newer family is not cut when the shard's wall budget ends the table early on a loaded machine)
+    for case in _whitespace_rows():
+        yield case
     n = 0
     for r in range(5):
         for subset in itertools.combinations(CATS, r):
@@ -686,6 +740,12 @@ def _case(draw):
     if draw(st.booleans()):
         case_kw["tpl"] = (draw(st.sampled_from(sorted(TPL_STYLES))), draw(st.sampled_from(["context", "flow"])))
     case_kw["spare_bot"] = draw(st.booleans())
+    # whitespace around the texts of the judged call 1/3; around the rewrite products 1/3 of the configurations with the module's own rail actions
+    ws = st.sampled_from(["", "", " ", "  ", "\t", "\n", " \n"])
+    if draw(st.integers(0, 2)) == 1:
+        case_kw["pad"] = [draw(ws), draw(ws)]
+    if (var == "own" or block is not None) and draw(st.integers(0, 2)) == 1:
+        case_kw["rw_pad"] = [draw(ws), draw(ws)]
     return make_case(subset, spelling, n_out, vin, vout, draw(noise), draw(bot), draw(st.sampled_from(D_ROUTES)), n_in=n_in, n_ret=n_ret, flows=flows,
                      var=var, block=block, pre=pre, new=draw(st.booleans()), api=api, options_as=options_as, **case_kw)
 
@@ -769,6 +829,12 @@ def _check(case, obs):
         labels.append("predefined-messages=fixed-texts")
     if spec.get("spare_bot"):
         labels.append("bot-message-supplied-although-neither-dialog-nor-output-selected")
+    for key, word in (("pad", "texts"), ("rw_pad", "rewrite-products")):
+        if spec.get(key):
+            lead, trail = spec[key]
+            labels.append(f"{word}-with-whitespace:" + ("leading+trailing" if lead and trail else "leading" if lead else "trailing"))
+            if "\n" in lead + trail or "\t" in lead + trail:
+                labels.append(f"{word}-with-whitespace:newline/tab")
     text = pipeline.reply_text(o)
     excs = pipeline.reply_exceptions(o)
     trace = o["trace"]
@@ -790,7 +856,7 @@ def _check(case, obs):
     if prob:
         raise Violation("input-rail-chain", prob)
     last_rw = max([i for i, c in enumerate(mi["calls"]) if c["verdict"] == "rewrite"], default=None)
-    user_now = spec["user"] if last_rw is None else fakes.rw_in_text(last_rw, T)
+    user_now = spec["user"] if last_rw is None else _pad(fakes.rw_in_text(last_rw, T), spec.get("rw_pad"))
     expected_log = [("input", flow_name(cfg, "in", i), c["verdict"] == "reject") for i, c in enumerate(mi["calls"])]
     out_entries = [e for e in trace if e["cat"] == "out"]
     nt_event = I and any(c["verdict"] != "accept" for c in mi["calls"])
@@ -821,6 +887,8 @@ def _check(case, obs):
         if not O:
             # input only (or nothing): the reply is the (possibly rewritten) user text
             labels.append("reply=user-text" + ("-rewritten" if mi["final"] != mi["orig"] else ""))
+            if user_now != user_now.strip():
+                labels.append("reply-must-keep-whitespace:" + ("rewritten-user-text" if last_rw is not None else "user-text"))
             if text != user_now:
                 raise Violation("reply-not-user-text", f"{what}: expected the reply to be the user text {user_now!r}, got {o['reply']!r}"[:500])
         else:
@@ -845,8 +913,10 @@ def _check(case, obs):
                 expect_refusal("out", mo["blocked"])
             else:
                 last_rw = max([i for i, c in enumerate(mo["calls"]) if c["verdict"] == "rewrite"], default=None)
-                want = spec["bot"] if last_rw is None else fakes.rw_out_text(last_rw, spec["bot"])
+                want = spec["bot"] if last_rw is None else _pad(fakes.rw_out_text(last_rw, spec["bot"]), spec.get("rw_pad"))
                 labels.append("reply=bot-message" + ("-rewritten" if mo["final"] != mo["orig"] else ""))
+                if want != want.strip():
+                    labels.append("reply-must-keep-whitespace:" + ("rewritten-bot-message" if last_rw is not None else "bot-message"))
                 if text != want:
                     raise Violation("reply-not-bot-message", f"{what}: expected the reply to be {want!r}, got {o['reply']!r}"[:500])
     else:
@@ -911,7 +981,7 @@ def _check(case, obs):
     empty_selected = (I and not cfg["in"]) or (O and not cfg["out"])
     nt = len(sel) < 4 and bool(nt_event or twice or empty_selected)
     # (the evidence keeps the 60 most frequent labels only: the shares of the options hand-over dimension are also kept as counters)
-    counters = {lab: 1 for lab in set(labels) if lab.startswith(("options-", "after-a-call-with", "predefined-messages=", "templated-", "bot-message-supplied-although"))}
+    counters = {lab: 1 for lab in set(labels) if lab.startswith(("options-", "after-a-call-with", "predefined-messages=", "templated-", "bot-message-supplied-although", "reply-must-keep-whitespace", "texts-with-whitespace", "rewrite-products-with-whitespace"))}
     return ok(nt=nt, labels=sorted(set(labels)), counters=counters, view={"rails": spec["options"]["rails"], "in": spec["in"], "out": spec["out"], "user": spec["user"], "bot": spec.get("bot"), "reply": o["reply"], "rail_calls": [e["rail"] for e in trace], "llm_calls": len(o["llm"]), "log": [(r["type"], r["name"], r["stop"]) for r in log]})
 
 
